@@ -365,8 +365,26 @@ def run_case(case):
     return out
 
 
+def other_tracers_first():
+    """history (C19): before any differentiation, the primitives the programs use are traced by ANOTHER kind of tracer - the graph
+    recorder of autograd.misc.tracers, under which the non-differentiable functions are ordinary operations - and a primitive without
+    rules is used (it raises) and only then declared non-differentiable.  Whatever a primitive remembers from that must not change how
+    it behaves under differentiation."""
+    try:
+        from autograd.misc.tracers import const_graph
+        g = const_graph(lambda x: x * anp.floor(x) + nd_prim(x) * x + anp.negative(x) * anp.add(x, 1.0) * anp.multiply(x, x))
+        g(1.75)
+        g(2.25)
+    except Exception:     # noqa
+        pass
+
+
 def main():
     cases = json.load(open(sys.argv[1]))
+    import re
+    m = re.search(r"in(\d+)\.json$", sys.argv[1])
+    if cases and m and int(m.group(1)) % 2 == 1:          # every second worker process
+        other_tracers_first()
     with open(sys.argv[2], "w") as f:
         for c in cases:
             f.write(json.dumps(run_case(c)) + "\n")
